@@ -15,7 +15,7 @@ The behavioural equivalence itself (same lexemes, trees, errors and repairs for 
 import re
 from mirlib import *
 from harness import loc_of
-from quotelib import quote_events, by_stream, interp_origin
+from quotelib import quote_events, by_stream, interp_origin, Flat
 
 META = {
     'level': 'other',
@@ -33,6 +33,33 @@ META = {
 
 def _txt(e):
     return e[3] if e[2] in ('ident', 'punct', 'lit') else None
+
+
+def _param_deps(b, op_or_local):
+    """parameters of `b` that the value depends on (backward slice over definitions)"""
+    l = op_or_local if isinstance(op_or_local, int) else op_local(op_or_local)
+    if l is None:
+        return set()
+    seen, todo, out = set(), [l], set()
+    while todo:
+        x = todo.pop()
+        if x in seen:
+            continue
+        seen.add(x)
+        if 1 <= x <= b.arg_count:
+            out.add(x)
+            continue
+        for d in b.defs().get(x, []):
+            ops = rv_operands(d[2]) if d[1] == 'stmt' else d[2]['args']
+            if d[1] == 'stmt':
+                for k in ('ref', 'rawptr', 'discr', 'len'):
+                    if k in d[2]:
+                        todo.append(d[2][k]['l'])
+            for o in ops:
+                pl = op_place(o)
+                if pl is not None:
+                    todo.append(pl['l'])
+    return out
 
 
 def r131(facts, res):
@@ -67,6 +94,42 @@ def r131(facts, res):
                 if len(it) >= 2 and it[-2] == 'dot' and inner[-1][2] == 'ident':
                     G = it[-1]
             found.setdefault(F, []).append((evs[i][0], var, src, G))
+    # the same line produced by a local template helper: fn h(field: &str, val: Option<T>) -> quote!{ v . #field = #val . or ( d . #field ) }
+    for hb in facts.bodies.values():
+        if hb.crate != 'lrlex' or not (hb.path.startswith(b.path) or hb.parent == b.path or (hb.file == b.file and hb.kind in ('fn', 'closure'))):
+            continue
+        if hb.path == b.path:
+            continue
+        HS = by_stream(quote_events(hb))
+        for s_, evs in HS.items():
+            t = [_txt(e) for e in evs]
+            for i in range(len(evs) - 4):
+                if not (evs[i][2] == 'ident' and t[i + 1] == 'dot' and evs[i + 2][2] == 'interp' and t[i + 3] == 'eq' and evs[i + 4][2] == 'interp'):
+                    continue
+                pi, pv = _param_deps(hb, evs[i + 2][3]), _param_deps(hb, evs[i + 4][3])
+                if len(pi) != 1 or len(pv) != 1 or pi == pv:
+                    continue
+                gi = None
+                if t[i + 5:i + 7] == ['dot', 'or'] and i + 7 < len(evs) and evs[i + 7][2] == 'group':
+                    inner = HS.get(evs[i + 7][3], [])
+                    if inner and inner[-1][2] == 'interp':
+                        gi = _param_deps(hb, inner[-1][3])
+                    elif inner and inner[-1][2] == 'ident':
+                        gi = inner[-1][3]
+                off = 1 if hb.kind == 'closure' else 0      # a closure's first parameter is its environment
+                for cbb, ct in b.calls(lambda ct: (callee_of(ct) or {}).get('path') == hb.path or (callee_of(ct) or {}).get('resolved') == hb.path):
+                    args = ct['args']
+                    ai, av = list(pi)[0] - 1, list(pv)[0] - 1
+                    if max(ai, av) >= len(args):
+                        continue
+                    from c03 import const_str_of
+                    F = const_str_of(b, args[ai])
+                    if F not in fields:
+                        continue
+                    root, names = interp_origin(b, args[av])
+                    src = names[-1] if names and 'LexFlags' in b.lty(root).replace('&', '') else None
+                    G = F if (gi == pi) else (gi if isinstance(gi, str) else None)
+                    found.setdefault(F, []).append((cbb, t[i], src, G))
     for F in fields:
         key = 'generated-flag:' + F
         if F not in found:
@@ -88,37 +151,41 @@ def r131(facts, res):
 def r132(facts, res):
     R = 'R13.2'
     b = facts.one(R, 'CTParserBuilder::gen_parse_function', crate='lrpar', name='gen_parse_function', impl_re=r'^lrpar::ctbuilder::CTParserBuilder<')
-    S = by_stream(quote_events(b))
+    F = Flat(facts, b)
     n = 0
-    for s in sorted(S):
-        evs = S[s]
-        t = [_txt(e) for e in evs]
+
+    def scan(items):
+        nonlocal n
+        t = [it[1] if it[0] in ('ident', 'punct', 'lit') else None for it in items]
         for i, x in enumerate(t):
-            if x != 'RTParserBuilder' or t[i + 1:i + 3] != ['colon2', 'new']:
-                continue
-            key = 'run-parser#%d' % n
-            n += 1
-            # the method chain that follows: . name ( .. )
-            chain = []
-            j = i + 3
-            if j < len(evs) and evs[j][2] == 'group':
-                j += 1
-            while j + 1 < len(evs) and t[j] == 'dot' and evs[j + 1][2] in ('ident', 'lit'):
-                g = evs[j + 2][3] if j + 2 < len(evs) and evs[j + 2][2] == 'group' else None
-                chain.append((t[j + 1], g))
-                j += 3 if g is not None else 2
-            rec = [g for nm, g in chain if nm == 'recoverer']
-            where = loc_of(b, evs[i][0])
-            if not rec:
-                res.bad(R, key, where, 'this generated parser run (%s) never calls .recoverer(..): the generated parser recovers with the default '
-                        'recoverer whatever the builder was told' % ' . '.join(nm for nm, _ in chain))
-                continue
-            inner = S.get(rec[0], [])
-            srcs = [interp_origin(b, e[3]) for e in inner if e[2] == 'interp']
-            if len(inner) == 1 and len(srcs) == 1 and srcs[0][0] == 1 and srcs[0][1][-1:] == ['recoverer']:
-                res.ok(R, key, where, 'generated `RTParserBuilder::new(..).recoverer(#x)` with x = the builder\'s recoverer (then .%s)' % (chain[-1][0] if chain else '?'))
-            else:
-                res.bad(R, key, where, 'the argument generated for .recoverer(..) is not the builder\'s `recoverer` field')
+            if x == 'RTParserBuilder' and t[i + 1:i + 3] == ['colon2', 'new']:
+                key = 'run-parser#%d' % n
+                n += 1
+                chain = []
+                j = i + 3
+                if j < len(items) and items[j][0] == 'group':
+                    j += 1
+                while j + 1 < len(items) and t[j] == 'dot' and items[j + 1][0] in ('ident', 'lit'):
+                    g = items[j + 2] if j + 2 < len(items) and items[j + 2][0] == 'group' else None
+                    chain.append((t[j + 1], g))
+                    j += 3 if g is not None else 2
+                rec = [g for nm, g in chain if nm == 'recoverer']
+                where = loc_of(b, items[i][2])
+                if not rec:
+                    res.bad(R, key, where, 'this generated parser run (%s) never calls .recoverer(..): the generated parser recovers with the default '
+                            'recoverer whatever the builder was told' % ' . '.join(nm for nm, _ in chain))
+                    continue
+                inner = rec[0][1] if rec[0] is not None else []
+                srcs = [interp_origin(b, it[1]) for it in inner if it[0] == 'interp']
+                if len(inner) == 1 and len(srcs) == 1 and srcs[0][0] == 1 and srcs[0][1][-1:] == ['recoverer']:
+                    res.ok(R, key, where, 'generated `RTParserBuilder::new(..).recoverer(#x)` with x = the builder\'s recoverer (then .%s)' % (chain[-1][0] if chain else '?'))
+                else:
+                    res.bad(R, key, where, 'the argument generated for .recoverer(..) is not the builder\'s `recoverer` field')
+        for it in items:
+            if it[0] == 'group':
+                scan(it[1])
+    for s_ in sorted(F.roots()):
+        scan(F.flat(s_))
     res.floor(R, 'generated parser runs', n, 3)
 
 
@@ -151,28 +218,41 @@ def r133(facts, res):
                 if len(rest) == 1:
                     arm = vn[rest.pop()]
         wmap.setdefault(arm, set()).add(cname(t))
-    # read side: the generated match
-    S = by_stream(quote_events(b))
+    # read side: the generated match (splices and template helpers expanded)
+    F = Flat(facts, b)
 
-    def idents_under(s, depth=0):
+    def idents_under(items):
         out = []
-        for e in S.get(s, []):
-            if e[2] == 'ident':
-                out.append(e[3])
-            elif e[2] == 'group' and depth < 6:
-                out += idents_under(e[3], depth + 1)
+        for it in items:
+            if it[0] == 'ident':
+                out.append(it[1])
+            elif it[0] == 'group':
+                out += idents_under(it[1])
         return out
     rmap = {}
     where = {}
-    for s, evs in S.items():
-        t = [_txt(e) for e in evs]
+
+    def scan(items):
+        t = [it[1] if it[0] in ('ident', 'punct', 'lit') else None for it in items]
         for i, x in enumerate(t):
-            if x == 'SerialisationFormat' and t[i + 1:i + 2] == ['colon2'] and i + 4 < len(evs) and evs[i + 2][2] == 'ident' and t[i + 3] == 'fat_arrow' and evs[i + 4][2] == 'group':
-                ids = idents_under(evs[i + 4][3])
+            if x == 'SerialisationFormat' and t[i + 1:i + 2] == ['colon2'] and i + 4 < len(items) and items[i + 2][0] == 'ident' and t[i + 3] == 'fat_arrow':
+                body = items[i + 4][1] if items[i + 4][0] == 'group' else []
+                if items[i + 4][0] != 'group':
+                    # an arm without braces: the tokens up to the next comma
+                    for it in items[i + 4:]:
+                        if it[0] == 'punct' and it[1] == 'comma':
+                            break
+                        body.append(it)
+                ids = idents_under(body)
                 if '_reconstitute' not in ids:
                     continue
-                rmap.setdefault(t[i + 2], set()).update(x for x in ids if re.match(r'with_\w+_encoding$', x))
-                where[t[i + 2]] = evs[i][0]
+                rmap.setdefault(t[i + 2], set()).update(y for y in ids if re.match(r'with_\w+_encoding$', y))
+                where[t[i + 2]] = items[i][2]
+        for it in items:
+            if it[0] == 'group':
+                scan(it[1])
+    for s_ in sorted(F.roots()):
+        scan(F.flat(s_))
     if None in wmap:
         res.bad(R, 'write:unattributed', loc_of(b), 'an integer encoding is chosen outside the arms of the match on the serialisation format')
     for v in vn.values():
